@@ -241,3 +241,74 @@ pub open spec fn store_fields_effect(t: St, bs: Seq<ContextBinding>, rem: int, l
         store_fields_effect(t3, bs.subrange(0, rest), rem, false)
     }
 }
+
+/// does `load_fields` leave the "scratch register evacuated" flag set? (state-independent)
+pub open spec fn load_fields_rf(n: int, ex: int, last: bool, rf: bool) -> bool
+    decreases n,
+{
+    if n <= 0 { rf } else {
+        let cap = if last { 3int } else { 2int };
+        let rest = if n <= cap { 0int } else { n - cap };
+        let rfa = load_fields_rf(rest, ex, false, rf);
+        if tfp(2 * (ex + rest)) is Spill { true } else { rfa }
+    }
+}
+
+/// effect of `load_fields` on a flag-free state `t`: the chain of blocks is walked first to last; the pointer
+/// to the block holding the values `bs[rest..n]` is in the first temporary after the variables loaded before;
+/// a spilled block pointer is worked on in rax, which is evacuated to the reserved spill slot 0 the first time
+/// this happens (`rf` tells whether it already happened) and restored after the last block. A block is put on
+/// the reusable free list before its fields are read iff the object is not shared (`!share`).
+pub open spec fn load_fields_effect(t: St, bs: Seq<ContextBinding>, ex: int, last: bool, share: bool, rf: bool) -> St
+    decreases bs.len(),
+{
+    let n = bs.len() as int;
+    if n == 0 { t } else {
+        let cap = if last { 3int } else { 2int };
+        let rest = if n <= cap { 0int } else { n - cap };
+        let ta = load_fields_effect(t, bs.subrange(0, rest), ex, false, share, rf);
+        let rfa = load_fields_rf(rest, ex, false, rf);
+        let next = bs.subrange(rest, n);
+        match tfp(2 * (ex + rest)) {
+            Temporary::Register(r) => {
+                let t1 = if !share { nf(release_effect(ta, rd(ta, r))) } else { ta };
+                let t2 = if !last { nf(load_field_effect(t1, tfp(2 * (ex + n)), r, 48int)) } else { t1 };
+                nf(load_values_iter(t2, next, ex + rest, r, cap, share, next.len() as int))
+            },
+            Temporary::Spill(k) => {
+                let r = Register(4);
+                let tb = if !rfa { stm(ta, slot_addr(ta, 0), ta.regs[4]) } else { ta };
+                let tc = wr(tb, r, tb.mem[slot_addr(tb, k.0 as int)]);
+                let t1 = if !share { nf(release_effect(tc, rd(tc, r))) } else { tc };
+                let t2 = if !last { nf(load_field_effect(t1, tfp(2 * (ex + n)), r, 48int)) } else { t1 };
+                let t3 = nf(load_values_iter(t2, next, ex + rest, r, cap, share, next.len() as int));
+                if last { wr(t3, r, t3.mem[slot_addr(t3, 0)]) } else { t3 }
+            },
+        }
+    }
+}
+
+/// effect of `Memory::load` once the pointer to the first block is in register `mb`: the reference count
+/// decides between taking the object apart (count 0: blocks released, children moved) and copying it
+/// (count > 0: count decremented, children shared)
+pub open spec fn load_register_effect(t: St, mb: Register, bs: Seq<ContextBinding>, ex: int) -> St {
+    let p = rd(t, mb) as int;
+    let c = t.mem[p];
+    if c == 0 {
+        load_fields_effect(t, bs, ex, true, false, false)
+    } else {
+        load_fields_effect(nf(stm(t, p, wadd(c, i2u(-1i64)))), bs, ex, true, true, false)
+    }
+}
+
+pub open spec fn load_effect(t: St, bs: Seq<ContextBinding>, ex: int) -> St {
+    if bs.len() == 0 { t } else {
+        match tfp(2 * ex) {
+            Temporary::Register(r) => load_register_effect(t, r, bs, ex),
+            Temporary::Spill(k) => {
+                let t1 = wr(t, Register(1), t.mem[slot_addr(t, k.0 as int)]);
+                load_register_effect(t1, Register(1), bs, ex)
+            },
+        }
+    }
+}
